@@ -607,8 +607,8 @@ impl PosWalk {
 
     /// Successors that combine two rare features, judged at every position of a walk (the walk itself takes only one
     /// move per position): any capture of a rook that stands on its home square with its castling right intact
-    /// (by a king, a promoting pawn, anything), and - while an en-passant file is set - every special move, king move
-    /// and capture (the file must be gone afterwards whatever the move was).
+    /// (by a king, a promoting pawn, anything), and - while an en-passant file is set - every special move, double
+    /// pawn step, king move and capture (the old file must be gone afterwards whatever the move was).
     fn rare_successors(&self, p: &Pos, g: &mut Game, ev: &mut Ev, route: u64) -> Result<(), Fail> {
         const HOMES: [(u8, usize); 4] = [(0, 1), (7, 0), (56, 3), (63, 2)];
         let lower = |s: u8| p.b[s as usize].to_ascii_lowercase();
@@ -618,7 +618,7 @@ impl PosWalk {
         for m in p.legal() {
             let home_rook = HOMES.iter().any(|&(sq, ci)| m.to == sq && p.cr[ci] && lower(sq) == b'r' && p.is_capture(m));
             let special = m.kind == K_EP || m.kind == K_OO || m.kind == K_OOO || m.promo != 0;
-            let with_ep = p.ep.is_some() && (special || lower(m.from) == b'k' || p.is_capture(m));
+            let with_ep = p.ep.is_some() && (special || m.kind == K_DOUBLE || lower(m.from) == b'k' || p.is_capture(m));
             if !(home_rook || with_ep) {
                 continue;
             }
@@ -965,7 +965,7 @@ impl Prop for PosWalk {
     }
 
     fn rule(&self) -> String {
-        let common = "Cases: proptest-generated walks (start = curated sane FEN or constructed random sane position with 2-32 men, castling rights and en-passant file FIDE-style or capturable; moves = picks with kind preferences capture/promotion/castle/ep/king/rook-home/double-push/check/undo resolved against the reference model's legal list; lengths 0-397) with the oracle evaluated at every position of the walk and at every legal successor of the final position (depth 1-2); about 1 walk in 250 is also observed through the real executable (C01: `rustybait perft 2 <fen> <moves>` divide against the model's divide; C02/C04/C11: `position fen … moves …` + `show` lines); at every position of a walk the successors that combine two rare features are judged as well (any capture of a home rook whose castling right is intact; every special move, king move and capture while an en-passant file is set); one constructed start in three carries other FEN counter fields than `0 1` (halfmove clock to 150, move number to 6000); every tier enumerates the en-passant laboratory (a pawn that has just made its double step, one or two capturers beside it, the capturing side's king anywhere within two squares of the three pawns, one enemy rook, bishop or queen anywhere - every sane placement, both colours) and the castling laboratory (king and rook(s) at home with the right(s), at most one own knight between them, one enemy queen, rook, bishop, knight or pawn anywhere - in the thorough tier a second enemy minor piece on ranks 2-4 -, both colours) and the promotion laboratory (a pawn on the seventh rank, each of the three squares in front of it empty or holding an enemy rook, knight, bishop or queen, the enemy king anywhere on the last two ranks - with the castling right whenever it stands at home beside a home rook -, the own king far away or within the three ranks below the pawn), each position with all its successors; thorough adds the exhaustive K+X v K tables. evaluations = positions compared. ";
+        let common = "Cases: proptest-generated walks (start = curated sane FEN or constructed random sane position with 2-32 men, castling rights and en-passant file FIDE-style or capturable; moves = picks with kind preferences capture/promotion/castle/ep/king/rook-home/double-push/check/undo resolved against the reference model's legal list; lengths 0-397) with the oracle evaluated at every position of the walk and at every legal successor of the final position (depth 1-2); about 1 walk in 250 is also observed through the real executable (C01: `rustybait perft 2 <fen> <moves>` divide against the model's divide; C02/C04/C11: `position fen … moves …` + `show` lines); at every position of a walk the successors that combine two rare features are judged as well (any capture of a home rook whose castling right is intact; every special move, double pawn step, king move and capture while an en-passant file is set); one constructed start in three carries other FEN counter fields than `0 1` (halfmove clock to 150, move number to 6000); every tier enumerates the en-passant laboratory (a pawn that has just made its double step, one or two capturers beside it, the capturing side's king anywhere within two squares of the three pawns, one enemy rook, bishop or queen anywhere - every sane placement, both colours) and the castling laboratory (king and rook(s) at home with the right(s), at most one own knight between them, one enemy queen, rook, bishop, knight or pawn anywhere - in the thorough tier a second enemy minor piece on ranks 2-4 -, both colours) and the promotion laboratory (a pawn on the seventh rank, each of the three squares in front of it empty or holding an enemy rook, knight, bishop or queen, the enemy king anywhere on the last two ranks - with the castling right whenever it stands at home beside a home rook -, the own king far away or within the three ranks below the pawn), each position with all its successors; thorough adds the exhaustive K+X v K tables. evaluations = positions compared. ";
         let nt = match self.which {
             Which::C01 => "Non-trivial position: in check, double check, has pseudo-legal moves that expose the own king (pins), en-passant capture legal, a castling right present, pawn one step from promotion, or at most 4 men; distinct by (placement, side, rights, ep).",
             Which::C02 => "Non-trivial case: a (position, move) pair where the move is castling, en passant, a promotion, moves from or captures on a rook home square, or records an en-passant file; distinct by position and move.",
